@@ -40,6 +40,8 @@ def generate(rnd, tier, index=0):
         if rnd.random() < 0.15:
             op["restart"] = rnd.choice(["deepcopy", "p2", "p3", "p4", "p5"])
         m = rnd.choice([1, 1, 2, 3, 7])
+        if rnd.random() < 0.3:
+            continue        # no query after this step: several changes in a row before the next query (stale caches)
         op["probe"] = {"Q": gen.gen_Q(rnd, m, d if ctxl else rnd.randint(1, 2), regime) if (ctxl or rnd.random() < 0.5)
                        else None, "sched": kernel.Sched.draw(rnd)}
     sibling = rnd.random() < 0.5
